@@ -43,6 +43,27 @@ class Work:
 _build_cache = {}
 
 
+def _build_stamp():
+    h = hashlib.sha256()
+    pats = [os.path.join(REPO, 'j1939', '**', '*.py'), os.path.join(ROOT, 'tools', 'py2coq*.py'),
+            os.path.join(COQ, 'build.sh'), os.path.join(COQ, '_CoqProject.base'),
+            os.path.join(COQ, 'theories', '**', '*.v'), os.path.join(COQ, 'theories', 'ref', '*.def'),
+            os.path.join(COQ, 'proofs', '*.v')]
+    for pat in pats:
+        for f in sorted(glob.glob(pat, recursive=True)):
+            h.update(f.encode() + b'\0')
+            with open(f, 'rb') as fh:
+                h.update(hashlib.sha256(fh.read()).digest())
+            if f.endswith('.v') and 'scratch' not in f:      # the compiled file must be there and not older
+                vo = f[:-2] + '.vo'
+                try:
+                    h.update(b'vo+' if os.path.getmtime(vo) >= os.path.getmtime(f) else b'vo-stale')
+                except OSError:
+                    h.update(b'vo-missing')
+    h.update(REPO.encode())
+    return h.hexdigest()
+
+
 def ensure_build(verbose=False):
     """translate /repo -> theories/gen, then incremental make -k (theories + proofs, not props).
     Returns dict(report=[...items], failed=[.v files that did not build], log=str)."""
@@ -51,6 +72,17 @@ def ensure_build(verbose=False):
     lock = open(os.path.join(ROOT, '.build.lock'), 'w')
     fcntl.flock(lock, fcntl.LOCK_EX)
     try:
+        # a clean build of exactly these inputs (source tree, translator, theories, proofs, generated files, compiled
+        # files present) is not repeated: the stamp covers every byte the build reads
+        stamp_file = os.path.join(ROOT, '.build.stamp')
+        st0 = _build_stamp()
+        try:
+            cached = json.load(open(stamp_file))
+        except (OSError, ValueError):
+            cached = None
+        if cached and cached.get('stamp') == st0 and not cached['res']['failed'] and os.environ.get('J1939_FORCE_BUILD') != '1':
+            _build_cache['r'] = cached['res']
+            return cached['res']
         env = dict(os.environ)
         rc, out = sh(['/venv/bin/python', os.path.join(ROOT, 'tools', 'py2coq.py'), REPO,
                       os.path.join(COQ, 'theories', 'gen')], timeout=120, env=env)
@@ -73,6 +105,10 @@ def ensure_build(verbose=False):
             failed = ['<make rc=%d>' % rc]
         res = dict(report=report, failed=failed, log=tlog + out, translator_ok=True)
         _build_cache['r'] = res
+        if not failed:
+            with open(stamp_file + '.tmp', 'w') as f:
+                json.dump(dict(stamp=_build_stamp(), res=dict(res, log='(cached build)')), f)
+            os.replace(stamp_file + '.tmp', stamp_file)
         return res
     finally:
         fcntl.flock(lock, fcntl.LOCK_UN)
